@@ -4,8 +4,8 @@ property it stands for (C01/C03/C05/C07/C08/C14, or `model` when it is none of t
 from vlib import *
 import trace_abs
 
-TRACE_PROPS = {"C01", "C03", "C04", "C05", "C06", "C07", "C08", "C09", "C14"}
-INBOUND = {"C04"}
+TRACE_PROPS = {"C01", "C03", "C04", "C05", "C06", "C07", "C08", "C09", "C13", "C14"}
+INBOUND = {"C04", "C13"}
 CONTENT_PROPS = {"C01", "C17"}
 
 
